@@ -4,7 +4,8 @@
 
   OBLIGATIONS (checked against the axiom audit by the harness):
     gen_tables_as_modelled extracted_codecs_ascii default_pref_ok
-    xml_roundtrip_events output_wellformed_events xml_roundtrip_partial tokenizer_inverts_serializer
+    xml_roundtrip_events output_wellformed_events xml_roundtrip_partial xml_roundtrip_outputside_partial
+    tokenizer_inverts_serializer
     ser_idempotent_partial builder_stream_not_idemOK
     explicit_default_not_undeclared
     encode_roundtrip_text encode_roundtrip_attr charref_roundtrip
@@ -15,6 +16,7 @@ import Genshi.Lemmas.XmlFlatD
 import Genshi.Lemmas.XmlEmptyTag
 import Genshi.Lemmas.XmlEncode
 import Genshi.Lemmas.XmlIdem
+import Genshi.Lemmas.XmlTxtB
 import Genshi.Model.XmlParser
 namespace Genshi.Props.C02
 open Genshi Genshi.Xml Genshi.Escape Genshi.Xml.Reader
@@ -86,7 +88,8 @@ theorem tokenizer_inverts_serializer (rep : Char → Bool) (hr : AsciiRep rep) (
   cases this
   exact ⟨o1, h1, h3⟩
 
-/-- **xml_roundtrip (text level, every encoding), partial.**  For every
+/-- **xml_roundtrip (text level, every encoding), with the text conditions on
+    the flattener's output.**  For every
     well-nested stream in `docOK` whose flattened form the text syntax can
     express (`docTextOK`) with markup the encoding can represent (`repMarkup`),
     the serializer produces a text and from its encoded form (characters the
@@ -104,7 +107,7 @@ theorem tokenizer_inverts_serializer (rep : Char → Bool) (hr : AsciiRep rep) (
     the input names and prefixes.  Both are exercised by the oracle on the real
     code and by the correspondence stream `read`; the driver reports for every
     generated stream whether it is inside these hypotheses. -/
-theorem xml_roundtrip_partial (pref : List (Str × Str)) (hpref : prefOK pref = true)
+theorem xml_roundtrip_outputside_partial (pref : List (Str × Str)) (hpref : prefOK pref = true)
     (rep : Char → Bool) (hr : AsciiRep rep) (s : Stream)
     (hn : WellNested s) (h : docOK (emptyTag s) = true)
     (hb : docTextOK (flatten pref (emptyTag s)) = true)
@@ -118,6 +121,36 @@ theorem xml_roundtrip_partial (pref : List (Str × Str)) (hpref : prefOK pref = 
   simp only [Option.bind_some]
   rw [resolve_tokOf]
   exact xml_roundtrip_events pref hpref s hn h
+
+/-- **xml_roundtrip, partial** — all hypotheses on the input stream.  For every
+    well-nested stream `s`, every legal preferred-prefix table and every encoding
+    that contains ASCII: if
+      * `docOK`: `s` is an XML document whose namespace events the syntax can
+        express (what the parser delivers for a well-formed document, what the
+        builder delivers for arbitrary qualified names),
+      * `inputTextOK`: its local names, prefixes and preferred prefixes are XML
+        names the encoding can represent, its namespace URIs and attribute
+        values contain no TAB/LF/CR, its character data no CR, comments, PIs,
+        CDATA sections, declaration and DOCTYPE can be written and represented,
+        character data is not adjacent to character data,
+    then the serializer produces a text, and from `encode`'s rendering of it
+    (unrepresentable characters of text and attribute values as character
+    references) an XML reader reads exactly the events `s` denotes.
+
+    Full statement (`xml_roundtrip`): the same without the last clause of
+    `inputTextOK`.  Missing: adjacent TEXT events (the builder produces them for
+    adjacent string children; the parser never does) are written as one run of
+    character data and read back as one event, so the conclusion needs
+    `canonS s` with adjacent text merged; the merging lemma is not proved.  The
+    oracle on the real code compares with coalesced text. -/
+theorem xml_roundtrip_partial (pref : List (Str × Str)) (hpref : prefOK pref = true)
+    (rep : Char → Bool) (hr : AsciiRep rep) (s : Stream)
+    (hn : WellNested s) (h : docOK (emptyTag s) = true)
+    (ht : inputTextOK rep pref (emptyTag s) = true) :
+    ∃ out, serRun SerSt.init (flatten pref (emptyTag s)) = some out ∧
+      Reader.read (encodeText rep out) = some (canonS s) := by
+  obtain ⟨h1, h2⟩ := textOK_of_input rep hr pref _ ht
+  exact xml_roundtrip_outputside_partial pref hpref rep hr s hn h h1 h2
 
 /-- **ser_idempotent, partial.**  For every stream in `docOK` that is shaped
     like the parser's (`idemOK`: namespace events directly in front of their
@@ -171,8 +204,9 @@ example :
        .end_ ⟨['u'], ['a']⟩, .endNs []]
     WellNested s ∧ docOK (emptyTag s) = true ∧ docTextOK (flatten defaultPref (emptyTag s)) = true ∧
     repMarkup (inRanges [(0, 127)]) (flatten defaultPref (emptyTag s)) = true ∧
+    inputTextOK (inRanges [(0, 127)]) defaultPref (emptyTag s) = true ∧
     (serialize s).isSome = true := by
-  refine ⟨by decide, by decide, by decide, by decide, by decide⟩
+  refine ⟨by decide, by decide, by decide, by decide, by decide, by decide⟩
 
 /-- a document with re-bound prefixes, two prefixes for one URI, an undeclared
     default namespace and an unbound attribute namespace is inside the hypothesis -/
